@@ -264,8 +264,14 @@ fn silence(w: &mut World, _ctx: &RunCtx, states: &mut Vec<u64>) -> Result<(), Vi
     let n = 2 + w.ch.choose("nodes", 2) as usize;
     let fam = w.ch.choose("addr_family", 2) as u8;
     let grid = [300u32, 120, 121, 119, 60, 59, 5, 3];
+    // learning meshes: the routes of a peer are then addresses learned behind it, which live for the switch timeout
+    // (300 s) from the last frame - longer than most peer timeouts
+    let learning = w.ch.chance("learning_mesh", 300);
+    if learning {
+        w.count("c15_silence_in_learning_mesh");
+    }
     for i in 0..n {
-        let mut c = mesh::tun_node(i);
+        let mut c = if learning { mesh::tap_node(i) } else { mesh::tun_node(i) };
         c.key = k;
         c.peer_timeout = *w.ch.pick("timeout", &grid);
         c.keepalive = KEEPALIVES[w.ch.weighted("keepalive", &[5, 2, 2, 2, 1])];
@@ -300,6 +306,19 @@ fn silence(w: &mut World, _ctx: &RunCtx, states: &mut Vec<u64>) -> Result<(), Vi
     }
     let s = w.ch.choose("silent_node", n as u32) as usize;
     let s_addr = w.nodes[s].addr;
+    if learning {
+        // the last thing the others hear from the node: a frame from a station behind it
+        let mut src = mesh::mac(s);
+        src[4] = s as u8;
+        let f = mesh::eth_frame([0xff; 6], src, &[], b"last words");
+        let at = w.now_ms + 1;
+        w.schedule_frame(at, s, f);
+        w.run_until(at + 100, |w, st| guard(w, st))?;
+        let learned = (0..n).filter(|i| *i != s).filter(|i| w.snapshot(*i).map(|sn| sn.table.cache.iter().any(|c| c.1 == s_addr)).unwrap_or(false)).count();
+        if learned > 0 {
+            w.count("c15_addresses_learned_behind_silent_node");
+        }
+    }
     for i in 0..n {
         if i != s {
             w.partition(s, i, true);
